@@ -5,6 +5,7 @@ use serde_json::Value;
 use crate::runner::{CaseEnv, Ctx, Failure};
 
 pub mod c01;
+pub mod c03;
 pub mod probe;
 
 pub struct Entry {
@@ -22,7 +23,7 @@ pub struct Entry {
 }
 
 pub fn all() -> Vec<Entry> {
-    vec![c01::entry()]
+    vec![c01::entry(), c03::entry()]
 }
 
 pub fn lookup(id: &str) -> Option<Entry> {
